@@ -1,0 +1,28 @@
+//go:build verif
+
+// Contracts for the deductive verification in /verif (goverif). Comment-only,
+// guarded by the build tag "verif". See ../verif_contracts.go.
+
+package smtp
+
+// ---------------------------------------------------------------------------
+// C19  No connection outlives a failed operation
+//
+//@ func smtp.NewClient (conn, host) (c, err)
+//@   ensures[C19:closed-on-error] err != nil ==> !conn.sock.open && livebal(conn.sock) == old(livebal(conn.sock))
+//@   ensures[C19:kept] err == nil ==> cwf(c) && c.isConnected && csock(c) == conn.sock && conn.sock.open == old(conn.sock.open) && world.liveConns == old(world.liveConns)
+//@ func smtp.Client.Close
+//@   requires[C19:wf] c != nil && c.Text != nil
+//@   ensures[C19:closed] !csock(c).open && livebal(csock(c)) == old(livebal(csock(c))) && (old(cwf(c)) ==> cwf(c))
+//@ func smtp.Client.Quit
+//@   requires[C19:wf] cwf(c)
+//@   ensures[C19:bal] cwf(c) && livebal(csock(c)) == old(livebal(csock(c)))
+//@   ensures[C19:closed] !csock(c).open
+//@ func smtp.Client.HasConnection
+//@   ensures[C19:flag] result == c.isConnected
+//@ func smtp.Client.Auth
+//@   requires[C19:wf] cwf(c)
+//@   ensures[C19:bal] cwf(c) && livebal(csock(c)) == old(livebal(csock(c)))
+//@ func smtp.Client.StartTLS
+//@   requires[C19:wf] cwf(c)
+//@   ensures[C19:bal] cwf(c) && csock(c) == old(csock(c)) && livebal(csock(c)) == old(livebal(csock(c)))
